@@ -152,7 +152,8 @@ def run(prog, rep, tier):
             if tt[0] == "switch" and len(tt) > 4 and tt[4] == "bool":
                 from c08 import var_of as _v
                 v = _v(lb, tt[1])
-                if v is not None and (lb.local_name(v) or "").startswith("is_last"):
+                is_last_flow = any(x[0] == "call" and x[2].endswith("::min_by") and "1" in x[3] for x in lb.origins(tt[1]))
+                if is_last_flow or (v is not None and (lb.local_name(v) or "").startswith("is_last")):
                     arms2 = {int(vv): tb for vv, tb in tt[2]}
                     tr = tt[3] if 0 in arms2 else arms2.get(1)
                     if tr is not None and lb.dominates(tr, w.bb):
